@@ -161,6 +161,7 @@ func (ex *Exec) ResetRun() {
 	setTermMemo = map[string]*term.Term{}
 	ex.ymdMemo = nil
 	ex.randN = 0
+	ex.tryN = 0
 }
 
 func (ex *Exec) extGlobalInit(st *State, g *ssa.Global) (Value, bool) {
